@@ -300,6 +300,16 @@ func checkGuards(r *Reporter, p *Prog, rule string, rows []GuardRow) {
 							}
 							want = recvPath + "." + gf.row.Mutex
 						}
+						if held[want] >= need && len(stack) >= 1 {
+							// the guarded container itself (map, slice, channel) handed out by a method that
+							// takes the lock on its own: the caller walks or changes it after the unlock
+							if _, isRet := stack[len(stack)-1].(*ast.ReturnStmt); isRet {
+								switch fv.Type().Underlying().(type) {
+								case *types.Map, *types.Slice:
+									a.bad = append(a.bad, fmt.Sprintf("%s: %s is returned by reference from inside the critical section of %s: the caller reads or ranges over the guarded %s after the lock is released", p.posStr(x.Pos()), displayPath(base)+"."+gf.field, displayPath(want), map[bool]string{true: "map", false: "slice"}[isMapType(fv.Type())]))
+								}
+							}
+						}
 						if held[want] < need && !condLocked(x.Pos(), want) {
 							a.bad = append(a.bad, fmt.Sprintf("%s: %s of %s needs %s held %s, held: %s", p.posStr(x.Pos()), map[bool]string{true: "write", false: "read"}[write], displayPath(base)+"."+gf.field, displayPath(want), modeS, held))
 							fnN := needs[fkey]
@@ -1017,4 +1027,9 @@ func staticCallee(info *types.Info, c *ast.CallExpr) *types.Func {
 		return fn.Origin()
 	}
 	return nil
+}
+
+func isMapType(t types.Type) bool {
+	_, ok := t.Underlying().(*types.Map)
+	return ok
 }
